@@ -68,6 +68,9 @@ func genRule(rng *sim.Rng) model.BreakerRule {
 		r.Threshold = []float64{0, 0.2, 0.5, 1.0, 0.34}[rng.Intn(5)]
 	default:
 		r.Threshold = float64(rng.Range(0, 4))
+		if rng.Chance(0.25) {
+			r.Threshold = []float64{0.5, 1.5, 2.5, 0.01, 3.999}[rng.Intn(5)] // a count "reaches" a fractional threshold at the next integer
+		}
 	}
 	return r
 }
